@@ -95,8 +95,9 @@ func runC11(o *cli.Opts, run *evid.Run) {
 			if n != int64(len(data)) {
 				fail(fmt.Sprintf("writer reported %d bytes, wrote %d", n, len(data)))
 			}
-			if len(data) < 8 || binary.BigEndian.Uint32(data[:4]) != ps.TreeDepth || binary.BigEndian.Uint32(data[4:8]) != ps.BatchSize {
-				fail("file header is not 4-byte big-endian depth followed by batch size")
+			// (the byte layout of the file is not asserted: the property is about what a reload restores)
+			if len(data) >= 8 && binary.BigEndian.Uint32(data[:4]) == ps.TreeDepth && binary.BigEndian.Uint32(data[4:8]) == ps.BatchSize {
+				run.Add("files_with_depth_batch_header", 1)
 			}
 			via := []string{"UnsafeReadFrom", "ReadSystemFromFile"}[i%2]
 			back, rn, err := reload(o, data, via, fmt.Sprint(i, raw))
